@@ -1238,8 +1238,15 @@ _lookup(LB* self,
         return NULL;
 
     cache = _getcache(self, provided, name);
-    if (cache == NULL)
+    if (cache == NULL) {
+        Py_DECREF(required);
         return NULL;
+    }
+    /* The uncached lookup below runs arbitrary Python code that may call
+       ``changed()``, dropping the last other reference to this dictionary;
+       like the local variable of the Python version, keep it alive until
+       the result has been stored. */
+    Py_INCREF(cache);
 
     if (PyTuple_GET_SIZE(required) == 1)
         key = PyTuple_GET_ITEM(required, 0);
@@ -1253,10 +1260,12 @@ _lookup(LB* self,
         result = PyObject_CallMethodObjArgs(
           OBJECT(self), str_uncached_lookup, required, provided, name, NULL);
         if (result == NULL) {
+            Py_DECREF(cache);
             Py_DECREF(required);
             return NULL;
         }
         status = PyDict_SetItem(cache, key, result);
+        Py_DECREF(cache);
         Py_DECREF(required);
         if (status < 0) {
             Py_DECREF(result);
@@ -1264,6 +1273,7 @@ _lookup(LB* self,
         }
     } else {
         Py_INCREF(result);
+        Py_DECREF(cache);
         Py_DECREF(required);
     }
 
@@ -1502,8 +1512,12 @@ _lookupAll(LB* self, PyObject* required, PyObject* provided)
     ASSURE_DICT(self->_mcache);
 
     cache = _subcache(self->_mcache, provided);
-    if (cache == NULL)
+    if (cache == NULL) {
+        Py_DECREF(required);
         return NULL;
+    }
+    /* Keep the dictionary alive across the callback; see _lookup. */
+    Py_INCREF(cache);
 
     result = PyDict_GetItem(cache, required);
     if (result == NULL) {
@@ -1512,10 +1526,12 @@ _lookupAll(LB* self, PyObject* required, PyObject* provided)
         result = PyObject_CallMethodObjArgs(
           OBJECT(self), str_uncached_lookupAll, required, provided, NULL);
         if (result == NULL) {
+            Py_DECREF(cache);
             Py_DECREF(required);
             return NULL;
         }
         status = PyDict_SetItem(cache, required, result);
+        Py_DECREF(cache);
         Py_DECREF(required);
         if (status < 0) {
             Py_DECREF(result);
@@ -1523,6 +1539,7 @@ _lookupAll(LB* self, PyObject* required, PyObject* provided)
         }
     } else {
         Py_INCREF(result);
+        Py_DECREF(cache);
         Py_DECREF(required);
     }
 
@@ -1570,8 +1587,12 @@ _subscriptions(LB* self, PyObject* required, PyObject* provided)
     ASSURE_DICT(self->_scache);
 
     cache = _subcache(self->_scache, provided);
-    if (cache == NULL)
+    if (cache == NULL) {
+        Py_DECREF(required);
         return NULL;
+    }
+    /* Keep the dictionary alive across the callback; see _lookup. */
+    Py_INCREF(cache);
 
     result = PyDict_GetItem(cache, required);
     if (result == NULL) {
@@ -1580,10 +1601,12 @@ _subscriptions(LB* self, PyObject* required, PyObject* provided)
         result = PyObject_CallMethodObjArgs(
           OBJECT(self), str_uncached_subscriptions, required, provided, NULL);
         if (result == NULL) {
+            Py_DECREF(cache);
             Py_DECREF(required);
             return NULL;
         }
         status = PyDict_SetItem(cache, required, result);
+        Py_DECREF(cache);
         Py_DECREF(required);
         if (status < 0) {
             Py_DECREF(result);
@@ -1591,6 +1614,7 @@ _subscriptions(LB* self, PyObject* required, PyObject* provided)
         }
     } else {
         Py_INCREF(result);
+        Py_DECREF(cache);
         Py_DECREF(required);
     }
 
@@ -1794,14 +1818,27 @@ _verify(VB* self)
 
     if (self->_verify_ro != NULL && self->_verify_generations != NULL) {
         PyObject* generations;
+        PyObject* verify_ro;
+        PyObject* verify_generations;
         int changed;
 
-        generations = _generations_tuple(self->_verify_ro);
-        if (generations == NULL)
+        /* Reading a ``_generation`` can run arbitrary Python code, which
+           may call ``changed()`` and replace both tuples. */
+        verify_ro = self->_verify_ro;
+        verify_generations = self->_verify_generations;
+        Py_INCREF(verify_ro);
+        Py_INCREF(verify_generations);
+
+        generations = _generations_tuple(verify_ro);
+        Py_DECREF(verify_ro);
+        if (generations == NULL) {
+            Py_DECREF(verify_generations);
             return -1;
+        }
 
         changed = PyObject_RichCompareBool(
-          self->_verify_generations, generations, Py_NE);
+          verify_generations, generations, Py_NE);
+        Py_DECREF(verify_generations);
         Py_DECREF(generations);
         if (changed == -1)
             return -1;
